@@ -563,19 +563,31 @@ func doReplay(path string) int {
 		fatalf("replay file has no run description")
 	}
 	rc := 0
-	for _, r := range append([]*Run{rec.Run}, rec.Also...) {
+	type rb struct {
+		r *Run
+		b int
+	}
+	todo := []rb{{rec.Run, rec.Violation.Batch}}
+	for _, r := range rec.Also {
+		todo = append(todo, rb{r, rec.Violation.Batch})
+	}
+	if rec.Violation.AlsoBatch1 > 0 {
+		todo = append(todo, rb{rec.Run, rec.Violation.AlsoBatch1 - 1})
+	}
+	for _, x := range todo {
+		r := x.r
 		bin, err := buildWorker(r.Flavor)
 		if err != nil {
 			fatalf("%v", err)
 		}
-		args := []string{"-prop", rec.Property, "-tier", rec.Tier, "-seed", strconv.FormatUint(rec.Seed, 10), "-batch", strconv.Itoa(rec.Violation.Batch),
+		args := []string{"-prop", rec.Property, "-tier", rec.Tier, "-seed", strconv.FormatUint(rec.Seed, 10), "-batch", strconv.Itoa(x.b),
 			"-nbatch", strconv.Itoa(r.NBatch), "-only", strconv.Itoa(rec.Violation.Case), "-mode", r.Mode, "-v", "-waive", strings.Join(openWaivers, ",")}
 		args = append(args, r.Extra...)
 		cmd := exec.Command(bin, args...)
 		cmd.Env = append(baseEnv(), r.Env...)
 		cmd.Stdout = os.Stdout
 		cmd.Stderr = os.Stderr
-		fmt.Printf("--- replay run=%s env=%v: %s %s\n", r.Name, r.Env, filepath.Base(bin), strings.Join(args, " "))
+		fmt.Printf("--- replay run=%s batch=%d env=%v: %s %s\n", r.Name, x.b, r.Env, filepath.Base(bin), strings.Join(args, " "))
 		if err := cmd.Run(); err != nil {
 			fmt.Printf("--- worker exit: %v\n", err)
 			rc = 1
